@@ -165,6 +165,8 @@ theorem quotaInv_step (hist : List Ev) (s : S) (e : Ev) (s' : S) (I : QuotaInv h
     · simp only [Option.some.injEq] at h; subst h; exact quota_keep I rfl rfl rfl rfl rfl rfl
     · simp at h
 
+  | cancelAll => simp only [step, Option.some.injEq] at h; subst h; exact quota_keep I rfl rfl rfl rfl rfl rfl
+  | restart => simp only [step, Option.some.injEq] at h; subst h; exact quota_keep I rfl rfl rfl rfl rfl rfl
 theorem quotaInv_reach {tr : List Ev} {s : S} (h : run init tr = some s) : QuotaInv tr s :=
   inv_reach QuotaInv quotaInv_init quotaInv_step tr s h
 
@@ -261,6 +263,8 @@ theorem orderInv_step (hist : List Ev) (s : S) (e : Ev) (s' : S) (I : OrderInv h
     simp only [step] at h; split at h
     · simp only [Option.some.injEq] at h; subst h; exact order_keep I rfl rfl (fun _ => rfl)
     · simp at h
+  | cancelAll => simp only [step, Option.some.injEq] at h; subst h; exact order_keep I rfl rfl (fun _ => rfl)
+  | restart => simp only [step, Option.some.injEq] at h; subst h; exact order_keep I rfl rfl (fun _ => rfl)
   | doneOk op rcs props =>
     simp only [step] at h
     repeat' split at h
@@ -284,6 +288,97 @@ theorem publish_order {tr : List Ev} (hacc : accepts tr = true) (pre post : List
   rw [hsplit] at hr
   obtain ⟨s1, hr1, _⟩ := run_prefix hr
   exact (orderInv_reach hr1).sorted
+
+
+/-! ### nothing succeeds after cancel() (C05, C09) -/
+
+
+def CancelInv (hist : List Ev) (s : S) : Prop := cancelledOf hist = s.cancelled
+
+theorem cancelledOf_snoc (h : List Ev) (e : Ev) :
+    cancelledOf (h ++ [e]) = (match e with | .cancelAll => true | .restart => false | _ => cancelledOf h) := by
+  simp only [cancelledOf, List.foldl_append, List.foldl_cons, List.foldl_nil]
+  cases e <;> rfl
+
+theorem cancelInv_step (hist : List Ev) (s : S) (e : Ev) (s' : S) (I : CancelInv hist s) (h : step s e = some s') : CancelInv (hist ++ [e]) s' := by
+  unfold CancelInv at *
+  rw [cancelledOf_snoc]
+  cases e with
+  | init op k n =>
+    simp only [step] at h; split at h
+    · simp at h
+    · simp only [Option.some.injEq] at h; subst h; exact I
+  | connUp rm => simp only [step, Option.some.injEq] at h; subst h; exact I
+  | connDown => simp only [step, Option.some.injEq] at h; subst h; exact I
+  | wr =>
+    simp only [step] at h; split at h
+    · simp at h
+    · simp only [Option.some.injEq] at h; subst h; exact I
+  | pk p =>
+    simp only [step] at h; split at h
+    · have : s'.cancelled = s.cancelled := by
+        rcases stepPk_spec h with ⟨op, q, pid, dup, body, k, rfl, _, s1, hr, ha⟩ | ⟨op, pid, body, rfl, hr⟩ | ⟨op, pid, body, rfl, hr⟩ | ⟨pid, sl, rfl, hs, hk, hph, rfl⟩ | ⟨rfl, rfl⟩
+        · have h1 : s1.cancelled = s.cancelled := by
+            obtain ⟨_, _, n, _, hc | ⟨sl, _, _, _, _, _, rfl⟩⟩ := request_spec hr
+            · obtain ⟨_, _, _, rfl⟩ := hc; rfl
+            · rfl
+          rcases account_spec ha with ⟨_, rfl⟩ | ⟨_, _, _, rfl⟩ | ⟨_, _, _, _, rfl⟩ <;> exact h1
+        · obtain ⟨_, _, n, _, hc | ⟨sl, _, _, _, _, _, rfl⟩⟩ := request_spec hr
+          · obtain ⟨_, _, _, rfl⟩ := hc; rfl
+          · rfl
+        · obtain ⟨_, _, n, _, hc | ⟨sl, _, _, _, _, _, rfl⟩⟩ := request_spec hr
+          · obtain ⟨_, _, _, rfl⟩ := hc; rfl
+          · rfl
+        · rfl
+        · rfl
+      rw [this]; exact I
+    · simp at h
+  | wrOk =>
+    simp only [step] at h; split at h
+    · simp only [Option.some.injEq] at h; subst h; exact I
+    · simp at h
+  | wrFail =>
+    simp only [step] at h; split at h
+    · simp only [Option.some.injEq] at h; subst h; exact I
+    · simp at h
+  | rx a => simp only [step, Option.some.injEq] at h; subst h; exact I
+  | quiescent =>
+    simp only [step] at h; split at h
+    · simp only [Option.some.injEq] at h; subst h; exact I
+    · simp at h
+  | cancelAll => simp only [step, Option.some.injEq] at h; subst h; rfl
+  | restart => simp only [step, Option.some.injEq] at h; subst h; rfl
+  | doneOk op rcs props =>
+    simp only [step] at h
+    repeat' split at h
+    all_goals first | (simp at h; done) | skip
+    simp only [Option.some.injEq] at h; subst h; exact I
+  | doneOther op =>
+    simp only [step] at h
+    repeat' split at h
+    all_goals first | (simp at h; done) | skip
+    all_goals simp only [Option.some.injEq] at h; subst h
+    all_goals exact I
+
+theorem cancelInv_reach {tr : List Ev} {s : S} (h : run init tr = some s) : CancelInv tr s :=
+  inv_reach CancelInv rfl cancelInv_step tr s h
+
+/-- **C05 / C09 on accepted event lists**: after cancel() (a terminal cancellation, a finished async_disconnect) and until async_run() is
+called again, no publish, subscribe or unsubscribe completes successfully -/
+theorem no_success_after_cancel {pre post : List Ev} {op : Nat} {rcs : List Nat} {props : Nat}
+    (hacc : accepts (pre ++ .doneOk op rcs props :: post) = true) : cancelledOf pre = false := by
+  obtain ⟨s, hr⟩ := (accepts_iff _).1 hacc
+  obtain ⟨s1, hr1, hr2⟩ := run_prefix hr
+  have I := cancelInv_reach hr1
+  simp only [run] at hr2
+  cases hs : step s1 (.doneOk op rcs props) with
+  | none => simp [hs] at hr2
+  | some s2 =>
+    simp only [step] at hs; split at hs
+    · simp at hs
+    · rename_i hg
+      simp only [Bool.or_eq_true, not_or, Bool.not_eq_true] at hg
+      unfold CancelInv at I; rw [I]; exact hg.2
 
 
 end Mqtt5V.Proofs.Trace
